@@ -262,6 +262,10 @@ def commitReopen (t : T) : HTerm × Option NodeSet × T :=
   let disk := match ns with | some s => applySet t.disk s | none => t.disk
   (h, ns, openTrie t.height t.kind disk t.leafDeleteAbs)
 
+/-- The node set of a `Commit()` is dropped (the batch it was written into is closed without
+`Write`, as in `stateBackend.Simulate` or after a failed `Store`) and the trie is opened again. -/
+def discardReopen (t : T) : T := openTrie t.height t.kind t.disk t.leafDeleteAbs
+
 /-- `Trie.Get(key)` through unresolved nodes. -/
 def get (e : Env) : Nat → Node → Path → Path → Option HTerm
   | 0, _, _, _ => none
